@@ -113,7 +113,7 @@ def selftest(ctx):
 
 # ------------------------------------------------------------------ generator
 _AWK_ATOMS = ["C1'", "O\"2", "N'A\"", "1HB", "HB''", "CA", "C", "N", "O", "X_1", "C#", "O;", "$A", "[B]", "H.", "?Q"]
-_AWK_RES = ["LG1", "Q'Z", "1AB", "A\"B", "Z_9", "UNK5X", "LG", "LG11"]
+_AWK_RES = ["LG1", "Q'Z", "1AB", "A\"B", "Z_9", "UNK5X", "LG", "LG11", "Lig", "LIG", "lg1"]
 _COLLIDE_ATOMS = ["C1", "1H", "C11", "H", "C", "11H", "1C", "1", "H1", "C1H"]
 _CHAINS = ["A", "B", "AA", "a1", "X'y", "Q\"", "1", "ZZZZ"]
 _ELEMS = ["C", "N", "O", "H", "S", "FE", "ZN", "SE"]
@@ -267,6 +267,13 @@ def gen_structure(rng, ctx, want_bonds, max_models=4):
         s["cell"] = (float(a), float(b), float(c), float(al), float(be), float(ga))
     else:
         s["cell"] = None
+    s["box_rot"] = None
+    if s.get("cell") is not None and rng.random() < 0.3:
+        q, _ = np.linalg.qr(rng.normal(size=(3, 3)))
+        if np.linalg.det(q) < 0:
+            q[:, 0] = -q[:, 0]
+        s["box_rot"] = q.tolist()
+        ctx.op("box_rotated_out_of_canonical_orientation")
     # bonds
     bonds = None
     if want_bonds:
@@ -311,7 +318,21 @@ def gen_structure(rng, ctx, want_bonds, max_models=4):
                     # a bond that shares exactly one end with the canonical link of its residue class (X-N, C-X, X-P, O3'-X)
                     cand = [r for r in range(len(residues) - 1)
                             if link_class(residues[r][3]) is not None and link_class(residues[r][3]) == link_class(residues[r + 1][3])]
-                    if cand:
+                    far = [(ra, rb) for ra in range(len(residues)) for rb in range(ra + 2, len(residues))
+                           if residues[ra][0] == residues[rb][0] and abs(residues[rb][1] - residues[ra][1]) <= 1
+                           and link_class(residues[ra][3]) is not None and link_class(residues[ra][3]) == link_class(residues[rb][3])]
+                    if far and rng.random() < 0.4:
+                        # the backbone atoms of two residues that are not neighbours in the array although their residue ids
+                        # differ by at most one (insertion codes 5, 5A, 5B; a residue of another kind in between): such a bond
+                        # is not a standard polymer link and has to be stored
+                        r1, r2 = far[int(rng.integers(len(far)))]
+                        x, y = ("C", "N") if link_class(residues[r1][3]) == "peptide" else ("O3'", "P")
+                        nm1 = [a[0] for a in templates[residues[r1][3]][0]]
+                        nm2 = [a[0] for a in templates[residues[r2][3]][0]]
+                        if x in nm1 and y in nm2:
+                            i = residues[r1][4] + nm1.index(x)
+                            j = residues[r2][4] + nm2.index(y)
+                    elif cand:
                         r1 = int(cand[int(rng.integers(len(cand)))])
                         r2 = r1 + 1
                         x, y = ("C", "N") if link_class(residues[r1][3]) == "peptide" else ("O3'", "P")
@@ -387,6 +408,9 @@ def to_real(s, stack=None):
     if s["cell"] is not None:
         a, b, c, al, be, ga = s["cell"]
         box = struc.vectors_from_unitcell(a, b, c, *np.deg2rad([al, be, ga]))
+        if s.get("box_rot") is not None:
+            # the same cell in another orientation (a rigidly rotated system): lengths and angles are what the file stores
+            box = (np.asarray(box, dtype=np.float64) @ np.asarray(s["box_rot"]).T)
         obj.box = np.repeat(box[None], m, axis=0) if stack else box
     if s["bonds"] is not None:
         arr = np.array([(i, j, t) for (i, j), t in s["bonds"].items()], dtype=np.int64).reshape(-1, 3)
